@@ -489,7 +489,37 @@ def rule_r8(p, res):
     r.check(True, "menpo.base", None, "")
 
 
-RULES = [rule_r1, rule_r2, rule_r3, rule_r4, rule_r5, rule_r6, rule_r7, rule_r8]
+def rule_r9(p, res):
+    r = res.rule("C19.R9", "glob patterns that select the landmark files of one frame / asset delimit the inserted name: no placeholder is followed directly by `*` "
+                 "(frame 1 would also collect the files of frames 10, 11, ...)")
+    import re as _re
+    n_pat = 0
+    for f in sorted(p.all_functions(), key=lambda x: x.qualname):
+        if f.module.name != "menpo.io.input.base":
+            continue
+        for n in walk_own(f.node):
+            bad = None
+            par = getattr(n, "_parent", None)
+            formatted = (isinstance(par, ast.Attribute) and par.attr == "format") or (isinstance(par, ast.BinOp) and isinstance(par.op, ast.Mod) and par.left is n)
+            if isinstance(n, ast.Constant) and isinstance(n.value, str) and formatted and "*" in n.value and "\n" not in n.value and _re.search(r"\{[^}]*\}|%[sd]", n.value):
+                n_pat += 1
+                r.instance("%s: %r" % (f.short, n.value))
+                if _re.search(r"(\{[^}]*\}|%[sd])\*", n.value):
+                    bad = n
+                r.check(bad is None, f, n, "%s builds the glob pattern %r: the inserted value is followed directly by `*`, so it matches every file whose name merely "
+                        "starts with it (the element for frame k would pick up the landmarks of frames k0..k9, k00..)" % (f.short, n.value))
+            elif isinstance(n, ast.JoinedStr):
+                vals = n.values
+                if any(isinstance(v, ast.Constant) and "*" in str(v.value) for v in vals) and any(isinstance(v, ast.FormattedValue) for v in vals):
+                    n_pat += 1
+                    r.instance("%s: f-string pattern" % f.short)
+                    ok = not any(isinstance(a, ast.FormattedValue) and isinstance(b, ast.Constant) and str(b.value).startswith("*") for a, b in zip(vals, vals[1:]))
+                    r.check(ok, f, n, "%s builds a glob pattern in which an inserted value is followed directly by `*`: it matches every file whose name merely starts with it" % f.short)
+    if n_pat < 1:
+        raise AnalysisError("C19.R9: no formatted glob pattern found in menpo.io.input.base (same_name_video expected)")
+
+
+RULES = [rule_r1, rule_r2, rule_r3, rule_r4, rule_r5, rule_r6, rule_r7, rule_r8, rule_r9]
 
 WITNESSES = [
     Witness("C19.W1", "menpo/base.py", "LazyList.repeat", "new = self.copy()", "new = self", rule="C19.R2", construct="repeat"),
@@ -529,4 +559,9 @@ WITNESSES += [
 WITNESSES += [
     Witness("C19.W_R8a", "menpo/base.py", "LazyList.map", "partial(delayed, one_f, x) for one_f, x in zip(f, new._callables)", "(lambda x=x: one_f(x())) for one_f, x in zip(f, new._callables)",
             rule="C19.R8", construct="map", note="seeded change R6-C19-A (late-bound mapping function: every element uses the last callable)"),
+]
+
+WITNESSES += [
+    Witness("C19.W_R9", "menpo/io/input/base.py", "same_name_video", "'{}_{}.*'.format(path.stem, frame_number)", "'{}_{}*'.format(path.stem, frame_number)",
+            rule="C19.R9", construct="same_name_video", note="seeded change R4-C19-C (lost dot: frame k also matches frames k0..k9)"),
 ]
